@@ -259,6 +259,35 @@ def check_spec(spec: NetSpec, label, st: Stats, tier, palette_seed, light=False)
             except Exception as e:  # noqa: BLE001
                 bad(f"C07/edited/exception/{exc_site(e)}/{type(e).__name__}",
                     f"{sym}, network edited in place ({emode}) after a step: {exc_text(e)}", phase="edited", sym=sym, emode=emode)
+    # 4d. every model parameter of the step given as a SYMBOL and declared through `parameters` (documented use): the
+    # network must still step and compile at every level, with and without the extra flow outputs
+    for sym in (("MX",) if light else ("SX", "MX")):
+        st.inc("executions")
+        st.inc("transitions", 3)
+        try:
+            XX = getattr(cs, sym)
+            syms = {k_: XX.sym(k_) for k_ in P0}
+            eng = env.casadi_engine(sym)
+            built = build(spec)
+            built.net.step(engine=eng, **syms)
+            n_scal = sum(n for _, _, n, _ in spec.variables())
+            for compact, more_out in (((1, True),) if light else ((0, True), (0, False), (1, True), (2, True), (2, False))):
+                F = eng.to_function(built.net, compact=compact, more_out=more_out, parameters=syms)
+                if F.nnz_in() != n_scal + len(syms) or F.get_free():
+                    bad("C07/to_function/argument-count", f"{sym} compact={compact} more_out={more_out}, symbolic step parameters: "
+                        f"{F.nnz_in()} scalar inputs, free symbols {F.get_free()}", phase="symbolic-step-parameters", sym=sym)
+                elif compact == 0:
+                    for val, o in zip(vecs[:2], Compiled(F, built, pnames=list(syms)).eval_many(vecs[:2], pvals=P0)):
+                        if refmodel.step(spec, val, P0).undefined:
+                            continue
+                        for slot, arr in o.items():
+                            if not np.all(np.isfinite(arr)):
+                                bad(f"C07/casadi/nonfinite/{kind_of(spec, slot[0]) if slot[0] != 'x' else 'flows'}",
+                                    f"{sym} symbolic step parameters: output {slot} = {arr.tolist()}",
+                                    phase="symbolic-step-parameters", sym=sym)
+        except Exception as e:  # noqa: BLE001
+            bad(f"C07/symbolic-step-parameters/exception/{exc_site(e)}/{type(e).__name__}",
+                f"{sym}, all step parameters symbolic and declared: {exc_text(e)}", phase="symbolic-step-parameters", sym=sym)
     # 5. positivity options -----------------------------------------------------------
     base = valgen.base_vector(spec, 0)
     for opts in (option_sets(tier)[-1:] if light else option_sets(tier)[1:]):
